@@ -2041,3 +2041,111 @@ func RulePU1(c *Ctx) {
 		}
 	}
 }
+
+// ---------------------------------------------------------------- RP1
+
+// RuleRP1: "required parameter P not specified" is said exactly when P is empty. An error
+// return that builds its message from jerr.RequiredParameterNotSpecified and the literal
+// name of a directive parameter is reached under the fact `NamedParameter(P) == ""` for that
+// same P (directly, or through a local that holds the value). A guard borrowed from an
+// accessor (`_, err := d.JsonRpcMethodName(); err != nil`) reports other failures under this
+// message and lets the empty parameter through.
+func RuleRP1(c *Ctx) {
+	sc := c.Run.Begin("RP1", "every 'required parameter P not specified' rejection of a directive parameter is guarded by NamedParameter(P) == \"\" for the same P", 5)
+	defer sc.End()
+	named := c.Func("directive", "Directive.NamedParameter")
+	if named == nil {
+		sc.Undecided("anchors", "-", "unresolved anchor: Directive.NamedParameter")
+		return
+	}
+	n := 0
+	perFn := map[*ast.FuncDecl]int{}
+	c.P.Funcs(func(pk *pkgT, fd *ast.FuncDecl) {
+		info := pk.TypesInfo
+		// only functions that read named parameters at all (the INCLUDE file name, for
+		// instance, is a lexeme, not a named parameter)
+		reads := false
+		dirT := c.Named("directive", "Directive")
+		for _, fl := range fd.Type.Params.List {
+			t := info.TypeOf(fl.Type)
+			if p, ok := t.(*types.Pointer); ok {
+				t = p.Elem()
+			}
+			if dirT != nil && t != nil && types.Identical(t, dirT) {
+				reads = true // the function handles a directive
+			}
+		}
+		ast.Inspect(fd.Body, func(x ast.Node) bool {
+			if call, ok := x.(*ast.CallExpr); ok && Callee(info, call) == named {
+				reads = true
+			}
+			return !reads
+		})
+		ast.Inspect(fd.Body, func(x ast.Node) bool {
+			ret, ok := x.(*ast.ReturnStmt)
+			if !ok || len(ret.Results) == 0 {
+				return true
+			}
+			isReq, lit := false, ""
+			ast.Inspect(ret, func(y ast.Node) bool {
+				switch z := y.(type) {
+				case *ast.SelectorExpr:
+					if k, ok := info.ObjectOf(z.Sel).(*types.Const); ok && k.Name() == "RequiredParameterNotSpecified" {
+						isReq = true
+					}
+				case *ast.BasicLit:
+					if z.Kind == token.STRING && !strings.ContainsAny(z.Value, "% ") {
+						lit = strings.Trim(z.Value, "\"`")
+					}
+				}
+				return true
+			})
+			if !isReq || lit == "" {
+				return true
+			}
+			if !reads {
+				return true
+			}
+			n++
+			perFn[fd]++
+			key := fmt.Sprintf("%s:%s#%d", c.P.DeclName(fd), lit, perFn[fd])
+			body := innermostBody(fd, ret)
+			cf := c.CFG(pk, body.body)
+			isParam := func(e ast.Expr) bool {
+				r := ast.Unparen(cf.Resolve(e))
+				if conv, ok := r.(*ast.CallExpr); ok && len(conv.Args) == 1 {
+					if tv, ok := info.Types[conv.Fun]; ok && tv.IsType() {
+						r = ast.Unparen(cf.Resolve(conv.Args[0]))
+					}
+				}
+				call, ok := r.(*ast.CallExpr)
+				if !ok || Callee(info, call) != named || len(call.Args) != 1 {
+					return false
+				}
+				tv, ok := info.Types[call.Args[0]]
+				return ok && tv.Value != nil && strings.Trim(tv.Value.ExactString(), "\"") == lit
+			}
+			good := false
+			for _, fa := range cf.FactsAt(ret) {
+				be, ok := ast.Unparen(fa.Expr).(*ast.BinaryExpr)
+				if !ok || !((be.Op == token.EQL && fa.Truth) || (be.Op == token.NEQ && !fa.Truth)) {
+					continue
+				}
+				for _, pair := range [][2]ast.Expr{{be.X, be.Y}, {be.Y, be.X}} {
+					if tv, ok := info.Types[pair[1]]; ok && tv.Value != nil && tv.Value.ExactString() == `""` && isParam(pair[0]) {
+						good = true
+					}
+				}
+			}
+			if good {
+				sc.Holds(key, c.P.Pos(ret.Pos()), "reported exactly when NamedParameter("+lit+") is empty")
+			} else {
+				sc.Violation(key, c.P.Pos(ret.Pos()), "the rejection 'required parameter "+lit+" not specified' is not guarded by NamedParameter(\""+lit+"\") == \"\": a directive without that parameter is accepted (stored under an empty name), or another failure is reported under this message")
+			}
+			return true
+		})
+	})
+	if n == 0 {
+		sc.Undecided("sites", "-", "no required-parameter rejection found")
+	}
+}
